@@ -251,3 +251,56 @@ Proof.
   - intros k i [H|[H|[]]]; inversion H; subst; assumption.
   - intros k i [].
 Qed.
+
+(* ---- multi-packet operations ---- *)
+Lemma forallb_firstn : forall {A} (f : A -> bool) n l, forallb f l = true -> forallb f (firstn n l) = true.
+Proof.
+  intros A f n. induction n as [|n IH]; intros l H; [reflexivity|]. destruct l; [reflexivity|].
+  cbn [firstn forallb] in *. apply andb_true_iff in H. destruct H as [H1 H2]. rewrite H1, (IH _ H2). reflexivity.
+Qed.
+Lemma forallb_skipn : forall {A} (f : A -> bool) n l, forallb f l = true -> forallb f (skipn n l) = true.
+Proof.
+  intros A f n. induction n as [|n IH]; intros l H; [exact H|]. destruct l; [reflexivity|].
+  cbn [skipn forallb] in *. apply andb_true_iff in H. apply IH. tauto.
+Qed.
+
+(* one '/b_setn buf start N v*N' packet *)
+Lemma good_setn_packet : forall L z pos c,
+  known L KBuf z -> forallb w_num c = true -> c <> [] ->
+  Good L (PStr "/b_setn" :: PInt z :: PInt pos :: plen c :: c).
+Proof.
+  intros L z pos c K Hc Hne.
+  eapply (good_cgroups L "/b_setn" [PInt z] (PInt pos :: plen c :: c) _ TInt TNum [(KBuf, z)]
+                       ((AInt pos :: wtok (plen c) :: map wtok c) ++ []) ([] ++ []));
+    try reflexivity; try (let Y := fresh "Y" in intros Y; reflexivity); try solve [intros k i []].
+  all: try (rewrite app_nil_r; change (AInt pos :: wtok (plen c) :: map wtok c) with (map wtok (PInt pos :: plen c :: c));
+            apply wire_toks; cbn [forallb w_tok w_num plen orb]; apply nums_toks; exact Hc).
+  all: try (constructor; [discriminate | | constructor]; intros r; rewrite plen_tok; cbn [app];
+            apply counted_one; [intros r'; reflexivity | apply nums_eat; exact Hc]).
+  all: try discriminate.
+  all: try (rewrite app_nil_r; change (AInt pos :: wtok (plen c) :: map wtok c) with (map wtok (PInt pos :: plen c :: c)); apply toks_not_msg).
+  all: try (intros k i [H|[]]; inversion H; subst; exact K).
+Qed.
+
+Lemma firstn_nonempty : forall {A} (l : list A), l <> [] -> firstn setn_chunk l <> [].
+Proof. intros A l H. destruct l; [contradiction H; reflexivity | discriminate]. Qed.
+
+Lemma stream_good : forall L z fuel pos l,
+  known L KBuf z -> forallb w_num l = true -> Forall (Good L) (stream_msgs fuel (PInt z) pos l).
+Proof.
+  intros L z fuel. induction fuel as [|f IH]; intros pos l K H; [constructor|].
+  destruct l as [|x t]; [constructor|]. cbn [stream_msgs]. constructor.
+  - apply good_setn_packet; [exact K | apply forallb_firstn; exact H | apply firstn_nonempty; discriminate].
+  - apply IH; [exact K | apply forallb_skipn; exact H].
+Qed.
+
+Lemma getn_good : forall L z fuel pos stop,
+  known L KBuf z -> Forall (Good L) (getn_msgs fuel (PInt z) pos stop).
+Proof.
+  intros L z fuel. induction fuel as [|f IH]; intros pos stop K; [constructor|].
+  cbn [getn_msgs]. destruct (pos <? stop); [|constructor]. constructor; [|apply IH; exact K].
+  good_fixed.
+Qed.
+
+Lemma flat_map_smsg_id : forall l, flat_map send_msgs (map SMsg l) = l.
+Proof. induction l as [|x t IH]; [reflexivity|]. cbn [map flat_map send_msgs app]. rewrite IH. reflexivity. Qed.
